@@ -63,7 +63,7 @@ def channel_ok(o):
 def series_case(v, kind, cname, N, ina, pat=None, lazy=False):
     ser = v.series("x", kind, N, sname="s", labels="l")
     snap = H.snapshot(ser)
-    mk = O.numeric_check if kind in ("int", "float") else O.string_check
+    mk = O.numeric_check if kind in ("int", "float", "Int") else O.string_check
     cs = mk(v, cname, ina, **({"pat": pat} if pat else {}))
     fs = O.FieldSpec(kind, nullable=v.bool("nullable"), unique=v.bool("unique"), checks=[cs], name="s",
                      report_duplicates=v.choice("rd", ["all", "exclude_first", "exclude_last"]))
@@ -73,7 +73,7 @@ def series_case(v, kind, cname, N, ina, pat=None, lazy=False):
         # argument validation of the constructor (documented: "max_value must not be smaller than min_value")
         return dict(obs=None, asserts=[("ctor_error_iff_documented", v.holds(ctor_rejects(v, cs)))], facts=dict(kind="ctor ValueError"))
     o = H.outcome(lambda: schema.validate(ser, lazy=lazy))
-    xs, ns = v.cells("x", kind, N, kind in ("float", "str"))
+    xs, ns = v.cells("x", kind, N, kind in ("float", "str", "Int"))
     spec = z3.And(fs.satisfied(v, xs, ns), z3.Not(ctor_rejects(v, cs)))
     asserts = [("verdict", v.iff(o["kind"] == "accept", spec)),
                ("channel", v.holds(channel_ok(o))),
@@ -155,13 +155,23 @@ def parse_case(v, arrangement, N, opts):
             drop_invalid_rows=parsing and bool(opts.get("drop")))
 
     schema = mk(True)
-    o = H.outcome(lambda: schema.validate(df, lazy=lazy))
+    depth = {"SO": "SCHEMA_ONLY", "DO": "DATA_ONLY"}.get(opts.get("depth"))
+
+    def run():
+        if depth:  # a restricted validation depth removes checks; parsing, copying and the error channel are the same
+            from pandera.config import ValidationDepth, config_context
+
+            with config_context(validation_depth=getattr(ValidationDepth, depth)):
+                return schema.validate(df, lazy=lazy)
+        return schema.validate(df, lazy=lazy)
+
+    o = H.outcome(run)
     asserts = [("channel", v.holds(channel_ok(o))), ("input_unchanged", H.equal_to_snapshot(v, df, snap))]
     facts = dict(kind=o["kind"], reason=o.get("reason"), reasons=o.get("reasons"))
     if o["kind"] == "accept":
         out = o["out"]
         asserts.append(("kind_preserved", v.holds(is_frame(out))))
-        if is_frame(out):
+        if is_frame(out) and not depth:
             osnap = H.snapshot(out)
             stripped = mk(False)
             o2 = H.outcome(lambda: stripped.validate(out, lazy=False))
@@ -304,6 +314,14 @@ def standard_cases(tier):
     for comp in ("column", "column_coerce", "column_default", "index", "index_coerce", "multiindex", "multiindex_coerce"):
         for lazy in (False, True):
             ts.append((f"K/{comp}/lazy={int(lazy)}/N={N}", component_case, (comp, N, lazy)))
+    # the parsing options under a restricted validation depth (checks are removed, parsers still run)
+    for depth in ("SO", "DO"):
+        for arr, c in ((["a", "b"], dict(coerce="col", a_kind="int")), (["a", "b"], dict(default=True)), (["a", "b", "x"], dict(strict="filter")),
+                       (["b"], dict(add_missing=True, default=True)), (["a", "b"], dict(coerce="schema", a_kind="int", index="coerce")), (["a", "b"], dict(drop=True))):
+            for lazy in ((False, True) if not c.get("drop") else (True,)):
+                cc = dict(c, lazy=lazy, depth=depth, distinct_labels=bool(c.get("drop")))
+                tid = f"PD/{depth}/" + "".join(arr) + "/" + "/".join(f"{k}={v}" for k, v in cc.items() if k not in ("distinct_labels", "depth"))
+                ts.append((tid, parse_case, (arr, N, cc)))
     return ts
 
 
@@ -369,6 +387,14 @@ def unusual_case(v, which, N):
         df = v.frame([("a", "float", False)], N, labels="l", distinct_labels=True)
         c = v.int("c")
         schema = pa.DataFrameSchema({"a": pa.Column(float, Check(lambda s: s.max() < c))}, drop_invalid_rows=True)
+    elif which == "drop_rows_then_dtype_error":  # a row-level error is collected first, the wrong dtype of a later column after it
+        df = v.frame([("a", "float"), ("b", "float", False)], N, labels="l", distinct_labels=True)
+        schema = pa.DataFrameSchema({"a": pa.Column(float, Check.ge(lo), nullable=True), "b": pa.Column(int)}, drop_invalid_rows=True)
+    elif which == "drop_rows_then_scalar_df_check":
+        df = v.frame([("a", "float"), ("b", "int")], N, labels="l", distinct_labels=True)
+        c = v.int("c")
+        schema = pa.DataFrameSchema({"a": pa.Column(float, Check.ge(lo), nullable=True), "b": pa.Column(int)}, checks=Check(lambda d: d["b"].max() < c),
+                                    drop_invalid_rows=True)
     elif which == "lazy_joint_unique_dup_labels":
         df = v.frame([("a", "float"), ("b", "int")], N, labels="l")
         schema = pa.DataFrameSchema({"a": pa.Column(float, nullable=True), "b": pa.Column(int)}, unique=["a", "b"])
@@ -401,10 +427,20 @@ def unusual_case(v, which, N):
     o = H.outcome(lambda: schema.validate(df, lazy=lazy))
     asserts = [("channel", v.holds(channel_ok(o))), ("input_unchanged", H.equal_to_snapshot(v, df, snap)),
                ("schema_unchanged", v.holds(fingerprint(schema) == fp0)), ("config_unchanged", v.holds(config_fingerprint() == cfg0))]
+    # C11: a violation that is not attributable to rows is still raised, however many rows the row-level errors remove
+    if which in ("drop_dtype_error_frame", "drop_dtype_error_series", "drop_dtype_error_column", "drop_missing_column", "drop_rows_then_dtype_error"):
+        asserts.append(("drop/non_row_violation_raised", v.holds(o["kind"] == "SchemaErrors")))
+    elif which == "drop_rows_then_scalar_df_check" and N > 0:
+        xb, _ = v.cells("b_", "int", N, False)
+        mx = xb[0]
+        for x in xb[1:]:
+            mx = z3.If(x > mx, x, mx)
+        asserts.append(("drop/non_row_violation_raised", v.iff(o["kind"] == "SchemaErrors", z3.Not(mx < v.z(c)))))
     return dict(obs=o, asserts=asserts, facts=dict(kind=o["kind"], reason=o.get("reason"), reasons=o.get("reasons"), msg=o.get("msg"), which=which))
 
 
 UNUSUAL = ("drop_dtype_error_frame", "drop_dtype_error_series", "drop_dtype_error_column", "drop_missing_column", "drop_scalar_check",
+           "drop_rows_then_dtype_error", "drop_rows_then_scalar_df_check",
            "lazy_joint_unique_dup_labels", "eager_joint_unique_dup_labels", "wide_check_dup_labels", "strict_regex", "regex_no_match",
            "wrong_kind_check_arg", "unique_nullable_drop")
 
@@ -812,7 +848,12 @@ def drop_case(v, shape, N, opts):
     coerce = bool(opts.get("coerce"))
     a_kind = "int" if coerce else "float"
     labels = [z3.Int(f"l{i}") for i in range(N)]
-    if shape == "series":
+    if shape == "series_Int":  # nullable integer extension dtype: <NA> cells in an integer column
+        a_kind = "Int"
+        obj = v.series("a_", "Int", N, sname="a", labels="l", distinct_labels=True)
+        schema = pa.SeriesSchema("Int64", Check.ge(lo), nullable=nullable, unique=unique_a, report_duplicates=rd, name="a", drop_invalid_rows=True)
+        arr = [("a", "Int")]
+    elif shape == "series":
         obj = v.series("a_", a_kind, N, sname="a", labels="l", distinct_labels=True)
         schema = pa.SeriesSchema(float, Check.ge(lo), nullable=nullable, unique=unique_a, report_duplicates=rd, coerce=coerce, name="a",
                                  drop_invalid_rows=True)
@@ -847,14 +888,14 @@ def drop_case(v, shape, N, opts):
                                          "b": pa.Column(int, Check.isin([1, 2, 3]))}, drop_invalid_rows=True, **kw)
     snap = H.snapshot(obj)
     o = H.outcome(lambda: schema.validate(obj, lazy=True))
-    cells = {c: v.cells(f"{c}_", k, N, k in ("float", "str") and not (shape == "frame_wide" and c == "a")) for c, k in arr}
+    cells = {c: v.cells(f"{c}_", k, N, k in ("float", "str", "Int") and not (shape == "frame_wide" and c == "a")) for c, k in arr}
     xa, na = cells["a"]
     # ---- oracle: row i is invalid iff it violates a row-level constraint (uniqueness as reported)
     bad = []
     dups = O.dup_rows(N, lambda i, j: O.eq_cell(xa, na, i, j), rd if shape != "model" else "all")
     for i in range(N):
         b = [z3.And(z3.Not(v.z(nullable)), na[i]), z3.And(v.z(unique_a), dups[i]), z3.And(z3.Not(na[i]), z3.Not(xa[i] >= v.z(lo)))]
-        if shape not in ("series", "column"):
+        if shape not in ("series", "column", "series_Int"):
             xb, nb = cells["b"]
             b.append(z3.Not(z3.Or(xb[i] == 1, xb[i] == 2, xb[i] == 3)))
         if shape == "frame_wide":
@@ -1629,7 +1670,7 @@ def _tagged_frame(v, kinds, N, tag):
     return real_pd.DataFrame({k: real_pd.Series(v._conc_cells(vals, nulls, kind), dtype=H.DT[kind], index=idx) for k, kind, vals, nulls in data}, index=idx)
 
 
-H_OPS = ["validate_eager", "validate_lazy", "coerce_dtype", "statistics", "to_yaml", "to_json", "to_script", "repr", "eq", "deepcopy", "strategy",
+H_OPS = ["validate_eager", "validate_lazy", "coerce_dtype", "statistics", "to_yaml", "to_json", "to_script", "repr", "eq", "deepcopy", "strategy", "example",
          "transform_add", "transform_rename", "transform_update", "transform_set_index"]
 
 
@@ -1673,6 +1714,13 @@ def history_case(v, variant, k, N, ops=None, fixed=()):
                 _copy.deepcopy(S)
             elif op == "strategy":
                 S.strategy(size=2)
+            elif op == "example":
+                # a real draw (the schema's attributes are concrete): building the strategy alone does not run its body
+                import warnings as _w
+
+                with _w.catch_warnings():
+                    _w.simplefilter("ignore")
+                    S.example(size=2)
             elif op == "transform_add":
                 S.add_columns({"zz": pa.Column(int)})
             elif op == "transform_rename":
